@@ -1,6 +1,6 @@
 (* Facts about the concrete caches of Model/Store.v (MemoryCache over dict / pylru.lrucache, with the
    regenerated clear()) and about the regenerated shard arithmetic of CachedColumn._get_shard. *)
-From Connectome Require Import Values Store MiscGen.
+From Connectome Require Import Values Store MemGen ShardGen.
 Local Open Scope list_scope.
 
 (* ---------- the LRU bound, for every operation list, including clear ---------- *)
